@@ -103,8 +103,8 @@ def census(ses, rep, fs):
                 if any(s_[0] == "call" and re.match(r"^<&?(mut )?" + re.escape(cid) + r" as Fn", s_[2]) for g in users for sts in g.blocks.values() for s_ in sts) and len(f.blocks) <= 60:
                     continue
             ex = ses.executor("lib", fs, inline=lambda n_, fn, own=own_closures: any(fn is g for g in own) and "{closure" in n_)
-            ex.max_block_visits = 2
-            ex.max_paths = 4000
+            ex.max_block_visits = 2 if rep.tier == "quick" else 3
+            ex.max_paths = 4000 if rep.tier == "quick" else 20000
             try:
                 args = lazy_args(ex, f)
                 outs = ex.run(f, args)
@@ -318,9 +318,10 @@ def verify_numbers(ses, rep, fs):
     ex.check_feasible = False          # few paths; every path condition is decided below together with the token language
     outs = ex.run(f, lazy_args(ex, f))
     rep.fn(f)
-    rep.bounds["number_text_max_len"] = 24
+    maxlen = 24 if rep.tier == "quick" else 40
+    rep.bounds["number_text_max_len"] = maxlen
     for syn in syntaxes:
-        lang = [z3.InRe(text, numstr.token_language(syn)), z3.Length(text) <= 24]
+        lang = [z3.InRe(text, numstr.token_language(syn)), z3.Length(text) <= maxlen]
         has_us = syn in ("luau", "luajit")
         for pi, o in enumerate(outs):
             rel = numstr.relation_constraints(o.state.aux.get("strrel", ()), no_char=() if has_us else ("_",),
